@@ -79,7 +79,7 @@ def run(ctx, prop, bias):
             for start, lines, off in srej:
                 ctx.drift.append("scripted run of processAttack differs from Pump!Expected: " + lines[off - 1].strip()[:200])
         ctx.coverage["pump_scripts_validated"] = len(plines) - 1
-    if prop == "C03":   # its anchors include the -workers / -max-workers flags
+    if prop in ("C03", "C04"):   # the -workers / -max-workers flags (C03), -rate and -duration as the command hands them to Attack (C04)
         acmd.run_part(ctx, vh)
     # 3c. C04 under the real scheduler and the real runtime timers, with the timer-channel semantics of both go.mod generations
     rt_cases = []
